@@ -364,6 +364,10 @@ func runC13(r *engine.Run) {
 		}
 		cmp("uplink", s.UplinkChannels, wantUp)
 		cmp("downlink", s.DownlinkChannels, wantDown)
+		// Name() and GetDownlinkTXPower() are called and recorded, not judged: the property
+		// speaks about data-rates, payload sizes, channels, RX2 defaults and TX-power steps
+		c.Outcome("name/" + b.Name())
+		c.Outcome(fmt.Sprintf("downlink-tx-power(869.525 MHz)=%d", b.GetDownlinkTXPower(869525000)))
 		// the channel plan as the API hands it out: every channel of the tables, and only those
 		for kind, tbl := range map[string][]band.VerifChannel{"uplink": s.UplinkChannels, "downlink": s.DownlinkChannels} {
 			get := b.GetUplinkChannel
